@@ -2,7 +2,7 @@
 import struct, random
 
 
-def build(cls=64, big=False, machine=62, entry=0, phdrs=(), symbols=(), min_len=0, seed=1, dynsyms=None, pltrels=(), dyn_vaddr=0x7f0000000000):
+def build(cls=64, big=False, machine=62, entry=0, phdrs=(), symbols=(), min_len=0, seed=1, dynsyms=None, pltrels=(), dyn_vaddr=None):
     """phdrs: dicts p_type,p_flags,p_offset,p_vaddr,p_paddr,p_filesz,p_memsz,p_align.
     symbols: dicts st_name(str),st_info,st_other,st_shndx,st_value,st_size (static .symtab).
     dynsyms: the same, written as the dynamic symbol table (entry 0 is NOT added implicitly: the list is the table);
@@ -17,6 +17,7 @@ def build(cls=64, big=False, machine=62, entry=0, phdrs=(), symbols=(), min_len=
     symentsize = 24 if is64 else 16
     phoff = ehsize
     phdrs = list(phdrs)
+    if dyn_vaddr is None: dyn_vaddr = 0x7f0000000000 if is64 else 0x7f000000
     if dynsyms is not None:
         def sympack(no, s_):
             if is64:
